@@ -730,7 +730,7 @@ def gen_restart(rng, cfg, w: World, opid, invalid, steer):
     op = {"id": opid, "k": "restart", "slot": si}
     via = cfg.get("restart_via") or rng.choice(["file", "file", "dict"])
     op["via"] = via
-    op["mapper_style"] = rng.choice(["inplace_ret", "inplace_none", "new"])
+    op["mapper_style"] = rng.choice(["inplace_ret", "inplace_none", "new", "new_bare"])
     if rng.random() < 0.3:
         op["deser_style"] = "consume"
     if via == "dict":
@@ -750,6 +750,8 @@ def gen_restart(rng, cfg, w: World, opid, invalid, steer):
             op["meta"]["$schema"] = "user"  # user metadata may use any key
     if rng.random() < 0.3:
         op["no_mapper"] = True
+    if rng.random() < 0.3:
+        op["auto_uncompress"] = True
     if rng.random() < (0.5 if op["key_map"] == "off" else 0.25):
         op["user_keys"] = True  # mapper fields named "s", "i", "k"
     return op
@@ -942,7 +944,12 @@ def gen_fromdict(rng, cfg, w: World, opid, invalid, steer):
             out.insert(rng.randint(0, len(out)), [dup[0], dup[1], []])
         return out
 
-    return {"id": opid, "k": "fromdict", "node": ref_of(si, target), "items": items(0)}
+    op = {"id": opid, "k": "fromdict", "node": ref_of(si, target), "items": items(0)}
+    if rng.random() < 0.4:
+        op["mapper"] = True
+    if rng.random() < 0.2:
+        op["empty_children_key"] = True  # leaves carry "children": []
+    return op
 
 
 GENERATORS = {
@@ -957,6 +964,7 @@ GENERATORS = {
 FAULT_CBS = {
     "add": ["hook"], "set_data": ["hook"], "del": ["hook"], "sort": ["key"],
     "filter": ["pred"], "copy": ["pred"], "visit": ["visitor"], "restart": ["mapper"],
+    "fromdict": ["mapper"],
 }
 
 READ_FAULT_CBS = {
